@@ -775,15 +775,25 @@ def shape_class(a, b, c_, d_):
     return "valid"
 
 
+BIG_SHAPES = [  # coincidences of element counts / transposed sizes beyond the enumerated bound
+    (4, 4, 2, 8), (4, 4, 8, 2), (4, 4, 1, 16), (4, 4, 16, 1), (2, 2, 1, 4), (2, 2, 4, 1), (6, 6, 4, 9), (6, 6, 9, 4), (6, 6, 3, 12),
+    (6, 6, 12, 3), (6, 6, 2, 18), (6, 6, 1, 36), (3, 3, 1, 9), (3, 3, 9, 1), (2, 8, 4, 4), (8, 2, 4, 4), (1, 16, 4, 4), (4, 9, 6, 6),
+    (2, 8, 2, 8), (2, 8, 8, 2), (8, 8, 8, 8), (8, 8, 4, 16), (7, 7, 7, 7), (9, 9, 9, 9), (9, 9, 3, 27), (4, 2, 2, 4), (2, 4, 4, 2),
+    (2, 8, 2, 2), (8, 2, 8, 8), (4, 1, 2, 2), (1, 4, 2, 2), (4, 4, 4, 16), (4, 4, 16, 4), (12, 3, 6, 6), (6, 1, 6, 6), (6, 6, 6, 1),
+]
+SHAPE_BOUND = 6
+
+
 def gen_ctor(ctx, g):
+    """ALL pairs of shapes (r1 x c1, r2 x c2), r, c in 0..6, for both LTI constructors, plus larger coincidences"""
     out = []
-    rng = range(0, 4)
-    for fr_, fc_, qr_, qc_ in itertools.product(rng, rng, rng, rng):
-        out.append(Case("lti_state", "lti_state %d %d %d %d" % (fr_, fc_, qr_, qc_), {"s": (fr_, fc_, qr_, qc_)}))
-    for hr, hc, rr, rc in itertools.product(rng, (0, 1, 2, 3, 5, 7), rng, rng):
-        out.append(Case("lti_meas", "lti_meas %d %d %d %d" % (hr, hc, rr, rc), {"s": (hr, hc, rr, rc)}))
-    for s in [(6, 6, 6, 6), (6, 6, 5, 5), (5, 6, 6, 6), (6, 6, 6, 5)]:
-        out.append(Case("lti_state", "lti_state %d %d %d %d" % s, {"s": s}))
+    rng = range(0, SHAPE_BOUND + 1)
+    for s4 in itertools.product(rng, rng, rng, rng):
+        out.append(Case("lti_state", "lti_state %d %d %d %d" % s4, {"s": s4, "cls": "all-pairs"}))
+        out.append(Case("lti_meas", "lti_meas %d %d %d %d" % s4, {"s": s4, "cls": "all-pairs"}))
+    for s4 in BIG_SHAPES + [(6, 6, 6, 6), (6, 6, 5, 5), (5, 6, 6, 6), (6, 6, 6, 5), (2, 7, 2, 2), (3, 5, 3, 3)]:
+        out.append(Case("lti_state", "lti_state %d %d %d %d" % s4, {"s": s4, "cls": "large"}))
+        out.append(Case("lti_meas", "lti_meas %d %d %d %d" % s4, {"s": s4, "cls": "large"}))
     return out
 
 
@@ -853,6 +863,11 @@ def gen_linmodel(ctx, g):
     for n in range(1, 6):
         for perm in itertools.permutations(range(n)):
             add(n, perm, n, n, "permutation")
+    # ALL pairs of shapes (H = idx.length x n, R = rr x rc) with valid indices, plus larger coincidences
+    rng = range(0, SHAPE_BOUND + 1)
+    for m, n, rr, rc in list(itertools.product(rng, rng, rng, rng)) + BIG_SHAPES:
+        idx = [(3 * i + 1) % n if n else 0 for i in range(m)]
+        add(n, idx, rr, rc, "all-shape-pairs")
     # R shape classes
     for n, idx in ((4, (0, 2)), (3, (2,)), (5, (4, 0, 1))):
         m = len(idx)
@@ -1588,7 +1603,7 @@ def run(ctx):
         "rule": "one case = one call sequence on one object of the shipped models (constructed from generated parameters); distinct = distinct input lines; "
                 "trivial = pure shape queries of the two LTI constructors and empty index lists; "
                 "sections: F/Q over Dim x (T,q) adversarial+random; noise samples (counts 0..4, twin generators, factor recovered from a probe call); "
-                "motion over the branches of propagate; transition density on batches with distinct columns; constructors over all shapes 0..3 (+5,7); "
+                "motion over the branches of propagate; transition density on batches with distinct columns; constructors over ALL pairs of shapes with rows, columns in 0..6 plus larger element-count coincidences (4x4 vs 2x8, 1x16; 6x6 vs 4x9, ...); "
                 "LinearModel over all index lists (length <= %d, values 0..n+1, n <= 5) + permutations + R shapes; SimulatedStateModel over all call sequences "
                 "of length <= %d on a 2-state trajectory + random longer ones (lengths 0..6); SimulatedLinearSensor call sequences; grid over nx,ny in 2..6"
                 % (ctx.n(3, 5), ctx.n(5, 7)),
@@ -1596,8 +1611,12 @@ def run(ctx):
         "section_sizes": per_section, "case_histogram": hist, "model_branches_hit": dict(br, **{k: v for k, v in stats.items() if isinstance(v, dict)}),
         "numeric": {k: v for k, v in stats.items() if not isinstance(v, dict)},
         "traces_validated_against_impl": len(todo),
-        "exhaustive": False,
-        "exhaustive_subspaces": {"Dim": [1, 2, 3], "lti_state_shapes": "0..3 ^ 4", "lti_meas_shapes": "rows 0..3, cols {0,1,2,3,5,7}, R 0..3 ^ 2",
+        "exhaustive": not ctx.replay,
+        "exhaustive_bound": "every pair of shapes (r1 x c1, r2 x c2) with r, c in 0..%d for LTIStateModel, LTIMeasurementModel and LinearModel "
+                            "(accept/reject compared with lti_ctor_iff / linear_H_selects for each), every Dim, and the finite sub-spaces listed under "
+                            "exhaustive_subspaces; T, q, states, seeds and long call sequences are sampled" % SHAPE_BOUND,
+        "exhaustive_subspaces": {"Dim": [1, 2, 3], "lti_state_shapes": "all (fr, fc, qr, qc) in 0..6 ^ 4 + %d larger coincidences" % len(BIG_SHAPES),
+                       "lti_meas_shapes": "all (hr, hc, rr, rc) in 0..6 ^ 4 + larger", "linear_model_shapes": "all (m, n, rr, rc) in 0..6 ^ 4 + larger",
                        "linear_index_lists": "n 0..5, length 0..%d, values 0..n+1" % ctx.n(3, 5),
                        "sim_call_sequences": "alphabet {bufferData,getData,reset,other}, length 0..%d, L = 2" % ctx.n(5, 7),
                        "grid_sizes": "nx, ny in 2..6", "sample_counts": "0..4 for every Dim"},
